@@ -5,12 +5,8 @@ package checks
 import (
 	"encoding/json"
 	"fmt"
-	"strings"
-
-	"github.com/mithrandie/csvq/lib/query"
 
 	"verif/harness/internal/core"
-	"verif/harness/internal/gox"
 )
 
 // Extra family for C14: "evaluated repeatedly" includes many rows evaluated by several goroutines. The statements
@@ -45,72 +41,8 @@ func c14ParallelScenarios() []goxScenario {
 	return out
 }
 
-type c14ParallelPayload struct {
-	Family   string      `json:"family"`
-	Scenario goxScenario `json:"scenario"`
-	Choices  []int       `json:"choices"`
-}
-
-func c14ParallelExplore(c *core.Ctx, sc goxScenario, replay []int) {
-	prev := query.GetGoroutineManager().MinimumRequiredPerCore
-	query.GetGoroutineManager().MinimumRequiredPerCore = 2
-	gox.EvalPoints, gox.LoopPoints = true, true
-	defer func() {
-		query.GetGoroutineManager().MinimumRequiredPerCore = prev
-		gox.EvalPoints, gox.LoopPoints = false, false
-	}()
-	dir := core.Scratch("c14parallel")
-	want, _ := goxRunOnce(dir, sc, 1, false, nil)
-	judge := func(choices []int, got string) {
-		if got != want {
-			c.Violate("parallel-repeat:"+sc.Name+":"+c12Signature("x", want, got)[2:], fmt.Sprintf("scenario %s %q with %d workers, choices %v:\n--- single worker:\n%s--- this schedule:\n%s", sc.Name, sc.SQL, sc.CPU, choices, want, got),
-				c14ParallelPayload{"parallel-repeat", sc, choices})
-		}
-	}
-	if replay != nil {
-		got, _ := goxRunOnce(dir, sc, sc.CPU, true, replay)
-		fmt.Printf("replayed schedule equal to the single-worker run: %v\n", got == want)
-		judge(replay, got)
-		return
-	}
-	e := &gox.Explorer{MaxPreempt: 1, MaxMapDev: 0, MaxSwitch: 1, Stop: c.Expired}
-	var got string
-	nontrivial := int64(0)
-	e.ExploreRunner(func(prefix []int) gox.Execution {
-		var ex gox.Execution
-		got, ex = goxRunOnce(dir, sc, sc.CPU, true, prefix)
-		return ex
-	}, func(choices []int, ex gox.Execution) {
-		if ex.Tasks > 1 {
-			nontrivial++
-		}
-		judge(choices, got)
-	})
-	c.EvalN(int64(e.Executions), nontrivial)
-	c.Observe("parallel_repeat_family", fmt.Sprintf("%s: %d schedules, %d tasks max", sc.Name, e.Executions, e.MaxTasks))
-	if e.Capped {
-		c.Incomplete("family parallel-repeat, scenario " + sc.Name + ": time budget reached before all schedules within the bound were run")
-	}
-	if e.Divergences > 0 {
-		c.Incomplete(fmt.Sprintf("family parallel-repeat, scenario %s: %d executions diverged from their choice vector", sc.Name, e.Divergences))
-	}
-}
-
-func c14ParallelRun(c *core.Ctx) {
-	for i, sc := range c14ParallelScenarios() {
-		if !c.Mine(int64(i)) {
-			continue
-		}
-		c14ParallelExplore(c, sc, nil)
-	}
-}
+func c14ParallelRun(c *core.Ctx) { goxFamilyRun(c, "parallel-repeat", c14ParallelScenarios(), true) }
 
 func c14ParallelReplay(c *core.Ctx, payload json.RawMessage) bool {
-	var p c14ParallelPayload
-	if json.Unmarshal(payload, &p) != nil || p.Family != "parallel-repeat" {
-		return false
-	}
-	fmt.Printf("replaying family parallel-repeat, scenario %s\n", strings.TrimSpace(p.Scenario.Name))
-	c14ParallelExplore(c, p.Scenario, p.Choices)
-	return true
+	return goxFamilyReplay(c, "parallel-repeat", true, payload)
 }
